@@ -1547,7 +1547,7 @@ def _raw_out(o, key=False):
     so are the keys / items views), a dictionary, or something lazy, which the host consumes (FIter: what it gets; an
     exception raised while it does is the outcome).  No limiter is put around the result."""
     if isinstance(o, dict):
-        return (FD if key else dict)((_raw_out(k, True), _raw_out(v)) for k, v in o.items())
+        return (FD if key else dict)((_raw_out(k, True), _raw_out(v, key)) for k, v in o.items())     # (inside a key: hashable all the way down)
     if isinstance(o, frozenset):
         return FSet(_raw_out(x) for x in o)
     if isinstance(o, View):
